@@ -116,3 +116,27 @@ contract("artap.algorithm_genetic:GeneticAlgorithm.generate", props=["C08", "C09
          modifies=["$cv.Individual.counter"], allocates=True,
          notes="parent1.__class__(v) is modelled as Individual(v): subclasses (IndividualEpsMOEA, IndividualSwarm) extend "
                "Individual.__init__ with feature entries only")
+
+# ---- swarm turbulence: mutated particles stay inside the box (C08: every design evaluated during an OMOPSO / SMPSO run) -------
+define("swarm_inbox", ["particles", "ps"],
+       "forall(lambda t: valid(particles[t]) and valid(particles[t].vector) and inbox(particles[t].vector, ps), 0, len(particles))")
+contract("artap.algorithm_swarm:OMOPSO.turbulence", props=["C08"],
+         types={"particles": "List[Ref[Individual]]", "current_step": "Int"}, locals={"mutated": "List[Real]"},
+         requires=["valid(self.uniform_mutator) and valid(self.non_uniform_mutator)",
+                   "self.uniform_mutator.parameters is self.non_uniform_mutator.parameters and valid(self.uniform_mutator.parameters)",
+                   "pbox_wf(self.uniform_mutator.parameters)", "swarm_inbox(particles, self.uniform_mutator.parameters)",
+                   "self.non_uniform_mutator.max_iterations > 0 and 0 <= current_step and current_step <= self.non_uniform_mutator.max_iterations",
+                   "self.non_uniform_mutator.perturbation >= 0"],
+         ensures=["swarm_inbox(particles, self.uniform_mutator.parameters)", "unchanged(particles)"],
+         loops={1: ["swarm_inbox(particles, self.uniform_mutator.parameters)", "unchanged(particles)",
+                    "unchanged(self.uniform_mutator.parameters)",
+                    "forall(lambda i: unchanged(self.uniform_mutator.parameters[i]['bounds']), 0, len(self.uniform_mutator.parameters))"]},
+         modifies=["each(particles).vector"], allocates=["$list.Real", "$len.Real"])
+contract("artap.algorithm_swarm:SMPSO.turbulence", props=["C08"],
+         types={"particles": "List[Ref[Individual]]", "current_step": "Int"},
+         requires=["valid(self.mutator)", "valid(self.mutator.parameters)", "pbox_wf(self.mutator.parameters)",
+                   "swarm_inbox(particles, self.mutator.parameters)", "self.mutator.distribution_index >= 0"],
+         ensures=["swarm_inbox(particles, self.mutator.parameters)", "unchanged(particles)"],
+         loops={1: ["swarm_inbox(particles, self.mutator.parameters)", "unchanged(particles)", "unchanged(self.mutator.parameters)",
+                    "forall(lambda i: unchanged(self.mutator.parameters[i]['bounds']), 0, len(self.mutator.parameters))"]},
+         modifies=["each(particles).vector"], allocates=["$list.Real", "$len.Real"])
